@@ -34,6 +34,7 @@ func ruleC19(c *Check) {
 	c.genesisBindingSetter("C19.5")
 	c.genesisValidators("C19.6")
 	c.storedValuesValidate("C19.6")
+	c.createdRecordsValidate("C19.6")
 	c.moduleWiring("C19.7", map[string]bool{"genesis": true})
 	c.paramSetExact("C19.8")
 	c.genesisImportsAll("C19.5")
@@ -690,6 +691,31 @@ func (c *Check) genesisCoverage(rule string) {
 				}
 				c.req(!stops, rule, unitConstruct(cl, "export-callback-continues"), ev.Pos,
 					"the callback that collects records for export returns false (continue) on every path, so the whole family is exported")
+				// ... and it collects on every path: no record is left out of the export (a "holds nothing any more" filter
+				// drops state that the import would have restored: the binding, its owner, its price terms)
+				collects := func(pb *Path) bool {
+					for _, e2 := range pb.Events {
+						if (e2.Kind == EvAssign || e2.Kind == EvWrite) && e2.Val != nil && (e2.Val.Op == "append" || e2.Val.Op == "upd") {
+							return true
+						}
+					}
+					return false
+				}
+				some, all := false, true
+				for _, pb := range c.P.PathsOf(cl) {
+					if !pb.OK() {
+						continue
+					}
+					if collects(pb) {
+						some = true
+					} else {
+						all = false
+					}
+				}
+				if some {
+					c.req(all, rule, unitConstruct(cl, "export-callback-collects"), ev.Pos,
+						"the callback that collects records for export collects the scanned record on every path")
+				}
 			}
 		}
 	}
@@ -1479,4 +1505,104 @@ func (c *Check) enumJSONWriters(rule string) {
 		c.req(ok, rule, f.Name+"#writes-own-name", f.Body.Pos(), "the JSON form of the enumeration is json.Marshal(receiver.String())"+condStr(!ok, ": "+got))
 	}
 	c.req(n >= 2, rule, "enum-json-writers", token.NoPos, fmt.Sprintf("%d MarshalJSON methods of enumeration types", n))
+}
+
+// createdRecordsValidate (C19.6): "the genesis exported afterwards always passes genesis validation" — for the values the
+// module itself writes. A function that builds a record field by field fixes some fields to constants (a one-off context
+// gets frequency 0 and total 0, a new context the batch counter 0). The record's own validator, which genesis validation
+// applies to every exported record, is walked with the receiver replaced by that record: a rejecting path none of whose
+// conditions is refuted, and whose rejecting test reads one of the fixed integer / boolean fields, rejects a record the
+// module stores. (Fields that come from the message stay symbolic: their bounds are the business of sibling-bounds.)
+func (c *Check) createdRecordsValidate(rule string) {
+	n := 0
+	for _, rt := range []struct{ fam, typ string }{{"0x08", "RequestContext"}, {"0x02", "ServiceBinding"}, {"0x01", "ServiceDefinition"}} {
+		v := c.P.FuncNamed("types." + rt.typ + ".Validate")
+		if v == nil || v.Body == nil {
+			continue
+		}
+		units := c.persistUnits(rt.fam, rt.typ)
+		var fs []*Func
+		for f := range units {
+			fs = append(fs, f)
+		}
+		sort.Slice(fs, func(i, j int) bool { return fs[i].Name < fs[j].Name })
+		for _, f := range fs {
+			seen := map[string]bool{}
+			for _, pp := range units[f] {
+				if !pp.Path.OK() {
+					continue
+				}
+				for _, S := range pp.Stored {
+					if S.Op != "lit" || seen[S.String()] {
+						continue
+					}
+					seen[S.String()] = true
+					// parameters the creating path has decided
+					m := map[string]*Term{}
+					S.Walk(func(t *Term) bool {
+						if t.Op == "" && strings.HasPrefix(t.At, "P") {
+							if pp.Facts.Holds(t, true) {
+								m[t.At] = atom("#true")
+							} else if pp.Facts.Holds(t, false) {
+								m[t.At] = atom("#false")
+							}
+						}
+						return true
+					})
+					rec := S.Subst(m)
+					fixed := func(t *Term) bool {
+						hit := false
+						t.Walk(func(x *Term) bool {
+							if strings.HasPrefix(x.Op, "."+rt.typ+".") && len(x.A) == 1 && x.A[0].IsAt("Precv") {
+								fv := simplify(&Term{Op: x.Op, A: []*Term{rec}, Typ: x.Typ})
+								if isConstTerm(fv) {
+									if b, ok := typeUnderlyingBasic(x.Typ); ok && (b.Info()&types.IsInteger != 0 || b.Kind() == types.Bool) {
+										hit = true
+									}
+								}
+							}
+							return true
+						})
+						return hit
+					}
+					n++
+					bad := ""
+					var badPos token.Pos
+					for _, pa := range c.P.PathsOf(v) {
+						if pa.Exit != ExitRevert {
+							continue
+						}
+						var last *Event
+						feasible := true
+						for _, ev := range pa.Events {
+							if ev.Kind != EvFact {
+								continue
+							}
+							last = ev
+							ft := simplify(ev.Fact.T.Subst(map[string]*Term{"Precv": rec}))
+							if decideFact(Fact{T: ft, Neg: ev.Fact.Neg}, FactSet{}) == 0 {
+								feasible = false
+							}
+						}
+						if last == nil || !feasible || !fixed(last.Fact.T) {
+							continue
+						}
+						bad = shortTerm(simplify(last.Fact.T.Subst(map[string]*Term{"Precv": rec})))
+						if last.Fact.Neg {
+							bad = "¬" + bad
+						}
+						badPos = pa.RetPos
+					}
+					pos := v.Body.Pos()
+					if bad != "" {
+						pos = badPos
+					}
+					c.req(bad == "", rule, unitConstruct(f, "created-record-validates:"+rt.typ), pos,
+						"no rejecting path of "+v.Name+" is open to the record this function builds and stores"+condStr(bad != "", ": the path ending at "+c.pos(badPos)+" rejects under "+bad))
+				}
+			}
+		}
+	}
+	c.Sites += n
+	c.req(n >= 2, rule, "created-records", token.NoPos, fmt.Sprintf("%d records built field by field and stored", n))
 }
